@@ -169,6 +169,15 @@ flss(UINT16 val)
  * routines.
  */
 
+/* compute_reciprocal() takes a 16-bit divisor, but a scaled quantization value
+ * (quantval << 3, or quantval scaled by the AA&N factors) can be as large as
+ * 32767 * 8.  Truncating it to 16 bits would yield a wrong divisor (or 0.)
+ * Since the DCT coefficients to be quantized fit in 16 bits, every divisor
+ * >= 65535 quantizes all of them to 0, so clamping the divisor to 65535
+ * produces the same result as the true divisor.
+ */
+#define CLAMP_DIVISOR(d)  ((d) > 65535 ? (UINT16)65535 : (UINT16)(d))
+
 LOCAL(int)
 compute_reciprocal(UINT16 divisor, DCTELEM *dtbl)
 {
@@ -266,11 +275,11 @@ start_pass_fdctmgr(j_compress_ptr cinfo)
       for (i = 0; i < DCTSIZE2; i++) {
 #if BITS_IN_JSAMPLE == 8
 #ifdef WITH_SIMD
-        if (!compute_reciprocal(qtbl->quantval[i] << 3, &dtbl[i]) &&
+        if (!compute_reciprocal(CLAMP_DIVISOR(qtbl->quantval[i] << 3), &dtbl[i]) &&
             fdct->quantize == jsimd_quantize)
           fdct->quantize = quantize;
 #else
-        compute_reciprocal(qtbl->quantval[i] << 3, &dtbl[i]);
+        compute_reciprocal(CLAMP_DIVISOR(qtbl->quantval[i] << 3), &dtbl[i]);
 #endif
 #else
         dtbl[i] = ((DCTELEM)qtbl->quantval[i]) << 3;
@@ -311,16 +320,16 @@ start_pass_fdctmgr(j_compress_ptr cinfo)
 #if BITS_IN_JSAMPLE == 8
 #ifdef WITH_SIMD
           if (!compute_reciprocal(
-                DESCALE(MULTIPLY16V16((JLONG)qtbl->quantval[i],
-                                      (JLONG)aanscales[i]),
-                        CONST_BITS - 3), &dtbl[i]) &&
+                CLAMP_DIVISOR(DESCALE(MULTIPLY16V16((JLONG)qtbl->quantval[i],
+                                                    (JLONG)aanscales[i]),
+                                      CONST_BITS - 3)), &dtbl[i]) &&
               fdct->quantize == jsimd_quantize)
             fdct->quantize = quantize;
 #else
           compute_reciprocal(
-            DESCALE(MULTIPLY16V16((JLONG)qtbl->quantval[i],
-                                  (JLONG)aanscales[i]),
-                    CONST_BITS-3), &dtbl[i]);
+            CLAMP_DIVISOR(DESCALE(MULTIPLY16V16((JLONG)qtbl->quantval[i],
+                                                (JLONG)aanscales[i]),
+                                  CONST_BITS-3)), &dtbl[i]);
 #endif
 #else
           dtbl[i] = (DCTELEM)
